@@ -421,6 +421,16 @@ inline void CEREAL_SAVE_FUNCTION_NAME(Archive &ar, RCP<const T> const &ptr)
     }
     ar_ptr->save_rcp_basic(rcp_static_cast<const Basic>(ptr));
 }
+// The loaders below construct objects directly (make_rcp), bypassing the
+// checks of the canonicalising constructors, while printing, comparing and
+// evaluating rely on basic structural invariants (containers are not empty,
+// members have the expected kind). Bytes that break them are rejected.
+inline void check_loaded(bool valid)
+{
+    if (not valid) {
+        throw SerializationError("Invalid input: malformed object");
+    }
+}
 template <class Archive>
 RCP<const Basic> load_basic(Archive &ar, RCP<const RealDouble> &)
 {
@@ -433,6 +443,8 @@ RCP<const Basic> load_basic(Archive &ar, RCP<const Infty> &)
 {
     RCP<const Number> direction;
     ar(direction);
+    // the direction is 1, 0 (complex infinity) or -1
+    check_loaded(Inf->is_canonical(direction));
     return Infty::from_direction(direction);
 }
 template <class Archive>
@@ -462,6 +474,7 @@ RCP<const Basic> load_basic(Archive &ar, RCP<const Mul> &)
     map_basic_basic dict;
     ar(coeff);
     ar(dict);
+    check_loaded(not dict.empty());
     return make_rcp<const Mul>(coeff, std::move(dict));
 }
 template <class Archive>
@@ -471,6 +484,7 @@ RCP<const Basic> load_basic(Archive &ar, RCP<const Add> &)
     umap_basic_num dict;
     ar(coeff);
     ar(dict);
+    check_loaded(not dict.empty());
     return make_rcp<const Add>(coeff, std::move(dict));
 }
 template <class Archive>
@@ -594,6 +608,8 @@ RCP<const Basic> load_basic(Archive &ar, RCP<const Interval> &)
     if (left_open > 1 or right_open > 1) {
         throw SerializationError("Invalid input");
     }
+    check_loaded(
+        Interval::is_canonical(start, end, left_open == 1, right_open == 1));
     return make_rcp<const Interval>(start, end, left_open == 1,
                                     right_open == 1);
 }
@@ -612,6 +628,7 @@ RCP<const Basic> load_basic(Archive &ar, RCP<const And> &)
 {
     set_boolean container;
     ar(container);
+    check_loaded(not container.empty());
     return make_rcp<const And>(std::move(container));
 }
 template <class Archive>
@@ -619,6 +636,7 @@ RCP<const Basic> load_basic(Archive &ar, RCP<const Or> &)
 {
     set_boolean container;
     ar(container);
+    check_loaded(not container.empty());
     return make_rcp<const Or>(std::move(container));
 }
 template <class Archive>
@@ -626,6 +644,7 @@ RCP<const Basic> load_basic(Archive &ar, RCP<const Xor> &)
 {
     vec_boolean container;
     ar(container);
+    check_loaded(not container.empty());
     return make_rcp<const Xor>(std::move(container));
 }
 template <class Archive>
@@ -640,6 +659,7 @@ RCP<const Basic> load_basic(Archive &ar, RCP<const Piecewise> &)
 {
     PiecewiseVec vec;
     ar(vec);
+    check_loaded(not vec.empty());
     return make_rcp<const Piecewise>(std::move(vec));
 }
 template <class Archive>
@@ -680,6 +700,7 @@ RCP<const Basic> load_basic(Archive &ar, RCP<const Union> &)
 {
     set_set union_set;
     ar(union_set);
+    check_loaded(not union_set.empty());
     return make_rcp<const Union>(std::move(union_set));
 }
 template <class Archive>
@@ -702,6 +723,7 @@ RCP<const Basic> load_basic(Archive &ar, RCP<const FiniteSet> &)
 {
     set_basic set;
     ar(set);
+    check_loaded(FiniteSet::is_canonical(set));
     return make_rcp<const FiniteSet>(set);
 }
 template <class Archive>
@@ -728,6 +750,11 @@ RCP<const Basic> load_basic(Archive &ar, RCP<const Derivative> &)
     RCP<const Basic> arg;
     multiset_basic set;
     ar(arg, set);
+    check_loaded(not set.empty());
+    for (const auto &x : set) {
+        // the variables of a Derivative are Symbols
+        check_loaded(is_a<Symbol>(*x));
+    }
     return make_rcp<const Derivative>(arg, std::move(set));
 }
 template <class Archive>
@@ -785,6 +812,8 @@ load_basic(Archive &ar, RCP<const T> &,
 {
     vec_basic args;
     ar(args);
+    // Max, Min, LeviCivita
+    check_loaded(not args.empty());
     return make_rcp<const T>(std::move(args));
 }
 template <class Archive, class T>
